@@ -30,6 +30,14 @@ structure Num (α : Type) where
   sq : α → α
   /-- trust_region.py:86 `ZERO_THRESH = 1e-14` -/
   zt : α
+  /-- materialise the first `n` components of a vector (the identity mathematically: `fun _ f => f` in the
+      proofs, an array-backed copy in the driver so that a result is computed once, not once per index) -/
+  store : Nat → (Nat → α) → (Nat → α) := fun _ f => f
+
+/-- a computed vector (wrapper: a definition returning `Vec` is evaluated once by the compiled code,
+    whereas one returning `Nat → α` is re-run for every index) -/
+structure Vec (α : Type) where
+  f : Nat → α
 
 /-- left-to-right summation starting from 0: the reference reduction. -/
 def sumTo {α : Type} [OfNat α 0] [Add α] : Nat → (Nat → α) → α
@@ -126,24 +134,33 @@ def initState (N : Num α) (n : Nat) (g : Nat → α) : LinState α :=
   { x := fun _ => 0, dirn := initDirn N g, cons := initCons N n g }
 
 /-- trust_region.py:625-681 (Python branch, `use_fortran = False`). -/
-def trsboxLinear (N : Num α) (n : Nat) (g aIn bIn : Nat → α) (Delta : α) : Nat → α :=
-  linLoop N n (widenLo N aIn) (widenHi N bIn) Delta n (initState N n g)
+def trsboxLinearV (N : Num α) (n : Nat) (g aIn bIn : Nat → α) (Delta : α) : Vec α :=
+  ⟨N.store n (linLoop N n (widenLo N aIn) (widenHi N bIn) Delta n (initState N n g))⟩
 
-/-- the two candidates of `trsbox_geometry` (lines 712-713) -/
+def trsboxLinear (N : Num α) (n : Nat) (g aIn bIn : Nat → α) (Delta : α) : Nat → α :=
+  (trsboxLinearV N n g aIn bIn Delta).f
+
+/-- the step `s = x - xbase` of `trsbox_geometry`: the two candidates (lines 712-713) and the choice (714-717) -/
+def geomStepV (N : Num α) (n : Nat) (xbase : Nat → α) (c : α) (g lower upper : Nat → α) (Delta : α) : Vec α :=
+  let smin := trsboxLinearV N n g (fun i => lower i - xbase i) (fun i => upper i - xbase i) Delta               -- 712
+  let smax := trsboxLinearV N n (fun i => -(g i)) (fun i => lower i - xbase i) (fun i => upper i - xbase i) Delta   -- 713
+  if absv (c + dot N n g smax.f) ≤ absv (c + dot N n g smin.f) then smin else smax                            -- 714
+
 def geomSmin (N : Num α) (n : Nat) (xbase g lower upper : Nat → α) (Delta : α) : Nat → α :=
   trsboxLinear N n g (fun i => lower i - xbase i) (fun i => upper i - xbase i) Delta
 def geomSmax (N : Num α) (n : Nat) (xbase g lower upper : Nat → α) (Delta : α) : Nat → α :=
   trsboxLinear N n (fun i => -(g i)) (fun i => lower i - xbase i) (fun i => upper i - xbase i) Delta
 
-/-- the step `s = x - xbase` chosen at lines 714-717 -/
 def geomStep (N : Num α) (n : Nat) (xbase : Nat → α) (c : α) (g lower upper : Nat → α) (Delta : α) : Nat → α :=
-  let smin := geomSmin N n xbase g lower upper Delta
-  let smax := geomSmax N n xbase g lower upper Delta
-  if absv (c + dot N n g smax) ≤ absv (c + dot N n g smin) then smin else smax   -- 714
+  (geomStepV N n xbase c g lower upper Delta).f
 
 /-- trust_region.py:700-717. -/
+def trsboxGeometryV (N : Num α) (n : Nat) (xbase : Nat → α) (c : α) (g lower upper : Nat → α) (Delta : α) : Vec α :=
+  let s := geomStepV N n xbase c g lower upper Delta
+  ⟨N.store n fun i => xbase i + s.f i⟩                                                                        -- 715 / 717
+
 def trsboxGeometry (N : Num α) (n : Nat) (xbase : Nat → α) (c : α) (g lower upper : Nat → α) (Delta : α) : Nat → α :=
-  fun i => xbase i + geomStep N n xbase c g lower upper Delta i                   -- 715 / 717
+  (trsboxGeometryV N n xbase c g lower upper Delta).f
 
 end kernel
 
